@@ -109,6 +109,18 @@ impl FlushGen {
                 let data = content(rng, len);
                 ok &= self.cx.step(Op::WriteAll { f, data }).is_ok();
             }
+            // "write the new content, then cut the old tail": a truncate right after the write, with the position at
+            // the end of the file (size unchanged) or in front of an older, longer tail
+            match rng.below(5) {
+                0 | 1 => {
+                    ok &= self.cx.step(Op::Truncate(f)).is_ok();
+                }
+                2 => {
+                    self.cx.step(Op::Seek { f, whence: Whence::End, n: 0 });
+                    ok &= self.cx.step(Op::Truncate(f)).is_ok();
+                }
+                _ => {}
+            }
             if r + 1 < rounds || rng.chance(1, 2) {
                 let flushed = self.cx.step(Op::Flush(f)).is_ok() && ok;
                 let since = self.cx.last_seq;
